@@ -98,6 +98,7 @@ var (
 	zzC16Other    = errors.New("some execution error")
 	zzC16ReadOnly bool
 	zzC16RunCalls int
+	zzC16Oversize bool
 )
 
 func zzC16Run(evm *EVM, contract *Contract, input []byte, readOnly bool) ([]byte, error) {
@@ -110,7 +111,11 @@ func zzC16Run(evm *EVM, contract *Contract, input []byte, readOnly bool) ([]byte
 	left := zzverif.U64("callee.gasLeft")
 	zzverif.Assume(left <= contract.Gas)
 	contract.Gas = left
-	ret := make([]byte, zzverif.Choose("callee.retLen", 2))
+	lens := []int{0, 1}
+	if zzC16Oversize {
+		lens = append(lens, 24577) // init code returning more than the code size limit (creation frames)
+	}
+	ret := make([]byte, lens[zzverif.Choose("callee.retLen", len(lens))])
 	switch zzverif.Choose("callee.outcome", 3) {
 	case 0:
 		return ret, nil
@@ -213,6 +218,7 @@ func zzH_C16_call() {
 }
 
 func zzH_C16_create() {
+	zzC16Oversize = true
 	evm, db := zzC16EVM()
 	caller := AccountRef(common.Address{1})
 	gas := zzverif.U64("gas")
